@@ -125,6 +125,8 @@ def oracle_row(kind: str, pristine, row: pd.Series, extra: dict):  # noqa: ANN00
     from mxlpy import Simulator
 
     m = copy.deepcopy(pristine)
+    if extra.get("y0"):
+        m.update_variables(extra["y0"])  # base initial values of the whole scan; the row's own values come on top
     d = row.to_dict()
     m.update_variables({k: v for k, v in d.items() if k in m.get_variable_names()})
     m.update_parameters({k: v for k, v in d.items() if k in m.get_parameter_names()})
@@ -202,11 +204,19 @@ def run_case(case: dict) -> dict:
     if table.shape[1] == 0:
         table = pd.DataFrame({pnames[0]: [0.7, 1.3]})
         fail_rows = []
+    if rng.random() < 0.4:
+        # base initial values for the whole scan; where the table (or the outer Monte-Carlo table) has a column for the
+        # same variable, the row's value is the one that counts
+        tv = [c for c in table.columns if c in info["variables"]]
+        ys = set(rng.sample(tv, 1)) if tv and rng.random() < 0.7 else set()
+        ys |= set(rng.sample(info["variables"], 1))
+        extra["y0"] = {v: round(rng.uniform(0.3, 2.5), 3) for v in sorted(ys)}
     modes = [{"parallel": False, "cores": 0}] if kind.startswith("scan.") else []
     cores = rng.sample([1, 2, 3, 5, 16], 2)
     modes += [{"parallel": True, "cores": c} for c in cores]
     viols: list[dict] = []
-    counters: dict[str, int] = {f"kind:{kind}": 1, "rows": len(table), "failing_rows_planned": len(fail_rows)}
+    counters: dict[str, int] = {f"kind:{kind}": 1, "rows": len(table), "failing_rows_planned": len(fail_rows),
+                                "with_y0": int("y0" in extra), "y0_overlaps_table_column": int(any(v in table.columns for v in extra.get("y0", {})))}
     ctx = {"kind": kind, "table": {"index": [str(i) for i in table.index], **{c: table[c].tolist() for c in table.columns}},
            "extra": {kk: (v.tolist() if hasattr(v, "tolist") else str(v)) for kk, v in extra.items()}, "ia_model": info["ia"], "spec": spec}
     # ---- oracle per row ------------------------------------------------------
